@@ -4,6 +4,23 @@
 //!   faults.text <font 0..3 (3 = custom font with character spacing)> <colour mask> <align> <codepoints> <adapter> <native>
 //!   faults.dotted <rect x y w h> <style> <adapter> <native>      rectangle with StrokeStyle::Dotted
 //!   faults.image <bits 1|8|16> <w> <h> <sub 0|1|2> <adapter> <native>
+//!   faults.pixel <x> <y> <colour> <adapter> <native>                `Pixel(p, c).draw(target)`
+//!   faults.pixiter <points> <colour> <adapter> <native>             `points.map(|p| Pixel(p, c)).draw(target)` (PixelIteratorExt)
+//!   faults.whitespace <font 0..3> <colour mask> <baseline 0..3> <width> <adapter 0..5> <native>
+//!                                                                   `TextRenderer::draw_whitespace` of a MonoTextStyle
+//!   faults.clear <colour> <adapter 0..5> <cc 0|1> <native>          `target.clear(c)`; cc = 1: issued on `color_converted()`
+//!                                                                   stacked on top of the adapter stack (BinaryColor, colour & 1)
+//!
+//! The last four streams reach the call sites no drawable of the other streams goes through (site = row of
+//! lean/EG/Generated/DrawSites.lean, `fn -> callee`):
+//!   faults.pixel       core/src/drawable.rs           draw -> draw_iter                      (`Pixel::draw`)
+//!   faults.pixiter     src/iterator/mod.rs            draw -> draw_iter                      (`PixelIteratorExt::draw`)
+//!   faults.whitespace  src/mono_font/mono_text_style.rs  draw_whitespace -> fill_solid, draw_whitespace -> draw_decorations
+//!                                                     (and draw_decorations -> fill_solid x2, shared with faults.text)
+//!   faults.clear       src/draw_target/translated.rs  clear -> clear            (stacks 2, 4, 5: `Translated` on top or below)
+//!                      src/draw_target/color_converted.rs  clear -> clear       (cc = 1)
+//!                      core/src/draw_target/mod.rs    clear -> fill_solid       (the trait default: the draw_iter-only target
+//!                                                     itself [stack 0, native 0; also below stacks 2 and cc], `Clipped` and `Cropped`)
 //!
 //! adapter: 0 none, 1 clipped, 2 translated, 3 cropped, 4 clipped(translated), 5 translated(cropped(clipped)),
 //!          6 color_converted on the bare target (text only: BinaryColor text on an Rgb565 target)
@@ -23,10 +40,23 @@ use embedded_graphics::{
     pixelcolor::{BinaryColor, Gray8, Rgb565},
     prelude::*,
     primitives::{Rectangle, Styled},
-    text::{Alignment, Text},
+    text::{renderer::TextRenderer, Alignment, Baseline, Text},
 };
 
 pub struct M;
+
+/// `x,y;x,y;...` or `-`
+fn parse_pts(s: &str) -> Vec<Point> {
+    if s == "-" {
+        return Vec::new();
+    }
+    s.split(';')
+        .map(|p| {
+            let (x, y) = p.split_once(',').expect("point");
+            Point::new(x.parse().expect("x"), y.parse().expect("y"))
+        })
+        .collect()
+}
 
 struct Outcome {
     n: usize,
@@ -76,7 +106,8 @@ macro_rules! fault_runs {
         let (r0, rec0) = run(None);
         $ctx.expect(r0.is_ok(), &format!("C04:fault-free-run-fails:{}", $kind), || format!("{:?}", r0));
         let n = rec0.calls;
-        // every k: the generators keep n small (largest fault-free run: 85 calls in the quick tier,
+        // every k: the generators keep n small (fixed grids: at most 85 calls, the 30x30 dotted rectangle;
+        // seeded random shapes: 84 / 121 calls at seed 1 in the quick / thorough tier, 103 / 132 at seed 7;
         // see the `calls:*` counters), so the quadratic cost is negligible
         let ks: Vec<usize> = (0..n).collect();
         for &k in &ks {
@@ -102,7 +133,13 @@ impl Module for M {
          alignments, multi-line) and 1/8/16-bpp images/sub-images, each through 6 adapter stacks (none, clipped, translated, cropped, clipped(translated), \
          translated(cropped(clipped)); 1/8-bpp images additionally through color_converted on top of each stack, text also through color_converted alone) \
          on a draw_iter-only and a native-fill recording target; for each op the k-th underlying call is failed for EVERY k < n (n = calls of the \
-         fault-free run; no sampling in either tier). Non-trivial: the fault-free run makes at least 2 calls; distinct = op text."
+         fault-free run; no sampling in either tier). Plus the entry points no drawable goes through: faults.pixel (Pixel::draw: \
+         core/src/drawable.rs draw -> draw_iter), faults.pixiter (PixelIteratorExt::draw: src/iterator/mod.rs draw -> draw_iter), \
+         faults.whitespace (MonoTextStyle::draw_whitespace, widths 0/1/7/40, all 16 colour/decoration masks, 4 baselines, 4 fonts: \
+         mono_text_style.rs draw_whitespace -> fill_solid, draw_whitespace -> draw_decorations, draw_decorations -> fill_solid x2), \
+         faults.clear (clear through every adapter stack, with and without color_converted on top, on both targets: translated.rs \
+         clear -> clear, color_converted.rs clear -> clear, core/src/draw_target/mod.rs clear -> fill_solid [the trait default of the \
+         draw_iter-only target, of Clipped and of Cropped]). Non-trivial: the fault-free run makes at least 2 calls; distinct = op text."
     }
 
     fn generate(&self, _pid: &str, tier: Tier, rng: &mut Rng, emit: &mut dyn FnMut(String)) {
@@ -146,6 +183,50 @@ impl Module for M {
                             continue;
                         }
                         emit(format!("faults.text {} {} {} {} {} {}", font, mask, (mask + si) % 3, fmt_list(s.iter()), adapter, (mask + adapter) % 2));
+                    }
+                }
+            }
+        }
+        // entry points that no drawable above goes through
+        for (x, y) in [(0, 0), (5, 7), (26, 22), (-100, 3)] {
+            for adapter in 0..7 {
+                for native in 0..2 {
+                    emit(format!("faults.pixel {} {} {} {} {}", x, y, 1234 + adapter, adapter, native));
+                }
+            }
+        }
+        for pts in ["-", "3,4", "0,0;1,0;2,5", "5,5;-100,2;5,5;30,30;6,5"] {
+            for adapter in 0..7 {
+                for native in 0..2 {
+                    emit(format!("faults.pixiter {} {} {} {}", pts, 77 + adapter, adapter, native));
+                }
+            }
+        }
+        let mut wi = 0usize;
+        for font in 0..4 {
+            for mask in 0..16 {
+                for bl in 0..4 {
+                    for width in [0u32, 1, 7, 40] {
+                        wi += 1;
+                        if quick {
+                            // rotate adapter stacks / target kinds over the grid
+                            emit(format!("faults.whitespace {} {} {} {} {} {}", font, mask, bl, width, wi % 6, (wi / 6) % 2));
+                        } else {
+                            for adapter in 0..6 {
+                                for native in 0..2 {
+                                    emit(format!("faults.whitespace {} {} {} {} {} {}", font, mask, bl, width, adapter, native));
+                                }
+                            }
+                        }
+                    }
+                }
+            }
+        }
+        for colour in [0u32, 1, 0xffff] {
+            for adapter in 0..6 {
+                for cc in 0..2 {
+                    for native in 0..2 {
+                        emit(format!("faults.clear {} {} {} {}", colour, adapter, cc, native));
                     }
                 }
             }
@@ -308,6 +389,104 @@ impl Module for M {
                     1 => go!(BinaryColor),
                     8 => go!(Gray8),
                     _ => go_rgb!(),
+                }
+            }
+            "faults.pixel" => {
+                let p = t.point();
+                let c = t.u32();
+                let adapter = t.u32();
+                let native = t.u32() == 1;
+                ctx.count(&format!("pixel:adapter{}", adapter));
+                if adapter == 6 {
+                    let px = Pixel(p, BinaryColor::from_num(c & 1));
+                    if native {
+                        fault_runs!(ctx, "pixel", R2, 0, d => px.draw(&mut d.color_converted()))
+                    } else {
+                        fault_runs!(ctx, "pixel", R1, 0, d => px.draw(&mut d.color_converted()))
+                    }
+                } else {
+                    let px = Pixel(p, Rgb565::from_num(c));
+                    if native {
+                        fault_runs!(ctx, "pixel", R2, adapter, d => px.draw(d))
+                    } else {
+                        fault_runs!(ctx, "pixel", R1, adapter, d => px.draw(d))
+                    }
+                }
+            }
+            "faults.pixiter" => {
+                let pts = parse_pts(t.str());
+                let c = t.u32();
+                let adapter = t.u32();
+                let native = t.u32() == 1;
+                ctx.count(&format!("pixiter:adapter{}", adapter));
+                if adapter == 6 {
+                    let col = BinaryColor::from_num(c & 1);
+                    if native {
+                        fault_runs!(ctx, "pixiter", R2, 0, d => pts.iter().map(|p| Pixel(*p, col)).draw(&mut d.color_converted()))
+                    } else {
+                        fault_runs!(ctx, "pixiter", R1, 0, d => pts.iter().map(|p| Pixel(*p, col)).draw(&mut d.color_converted()))
+                    }
+                } else {
+                    let col = Rgb565::from_num(c);
+                    if native {
+                        fault_runs!(ctx, "pixiter", R2, adapter, d => pts.iter().map(|p| Pixel(*p, col)).draw(d))
+                    } else {
+                        fault_runs!(ctx, "pixiter", R1, adapter, d => pts.iter().map(|p| Pixel(*p, col)).draw(d))
+                    }
+                }
+            }
+            "faults.whitespace" => {
+                let spaced = embedded_graphics::mono_font::MonoFont { character_spacing: 2, ..ascii::FONT_6X10 };
+                let fi = t.usize();
+                let font = if fi == 3 { &spaced } else { [&ascii::FONT_4X6, &ascii::FONT_6X10, &ascii::FONT_9X15][fi] };
+                let mask = t.u32();
+                let baseline = [Baseline::Top, Baseline::Bottom, Baseline::Middle, Baseline::Alphabetic][t.usize()];
+                let width = t.u32();
+                let adapter = t.u32();
+                let native = t.u32() == 1;
+                ctx.count(&format!("whitespace:adapter{}", adapter));
+                ctx.count(if width == 0 { "whitespace:width0" } else { "whitespace:width>0" });
+                let mut b = MonoTextStyleBuilder::<Rgb565>::new().font(font);
+                if mask & 1 != 0 {
+                    b = b.text_color(Rgb565::new(1, 2, 3));
+                }
+                if mask & 2 != 0 {
+                    b = b.background_color(Rgb565::new(3, 2, 1));
+                }
+                if mask & 4 != 0 {
+                    b = b.underline();
+                }
+                if mask & 8 != 0 {
+                    b = b.strikethrough_with_color(Rgb565::new(9, 9, 9));
+                }
+                let style = b.build();
+                let pos = Point::new(3, 9);
+                if native {
+                    fault_runs!(ctx, "whitespace", R2, adapter, d => style.draw_whitespace(width, pos, baseline, d))
+                } else {
+                    fault_runs!(ctx, "whitespace", R1, adapter, d => style.draw_whitespace(width, pos, baseline, d))
+                }
+            }
+            "faults.clear" => {
+                let c = t.u32();
+                let adapter = t.u32();
+                let cc = t.u32() == 1;
+                let native = t.u32() == 1;
+                ctx.count(&format!("clear:adapter{}:cc{}:native{}", adapter, cc as u32, native as u32));
+                if cc {
+                    let col = BinaryColor::from_num(c & 1);
+                    if native {
+                        fault_runs!(ctx, "clear", R2, adapter, d => d.color_converted().clear(col))
+                    } else {
+                        fault_runs!(ctx, "clear", R1, adapter, d => d.color_converted().clear(col))
+                    }
+                } else {
+                    let col = Rgb565::from_num(c);
+                    if native {
+                        fault_runs!(ctx, "clear", R2, adapter, d => d.clear(col))
+                    } else {
+                        fault_runs!(ctx, "clear", R1, adapter, d => d.clear(col))
+                    }
                 }
             }
             other => panic!("unknown op {}", other),
